@@ -36,7 +36,7 @@ class P(Prop):
                    "config-file values in the generated class contain no '#', quotes, brackets, '=' or line breaks (C12-F1/F2 are the listed findings outside it)"]
 
     def val(self, rnd, tag, plain):
-        pool = ["1", "7801", "a.b", "https://x.y,https://z", "true", "", "x-y", "é", "0", "127.0.0.2", "GET,PUT"]
+        pool = ["1", "7801", "a.b", "https://x.y,https://z", "true", "", "x-y", "é", "0", "127.0.0.2", "GET,PUT", "x_y", "https://my_app.example", "content-type,x_request_id", "_", "a-b_c"]
         if not plain:
             pool += ["x y", "q#r", "a=b", "[1]", "'s'", "\"d\""]
         if rnd.random() < 0.1:
